@@ -137,6 +137,9 @@ macro_rules! impl_ops {
                     None => "-".to_string(),
                     Some(s) => {
                         let ps: Vec<String> = s.parameters_types().map(hxs).collect();
+                        if s.to_string() != s.format_signature() {
+                            return "SG-DISPLAY-MISMATCH".to_string();
+                        }
                         format!(
                             "SG([{}],{},{})",
                             ps.join(";"),
@@ -250,8 +253,15 @@ macro_rules! impl_ops {
                     }),
                 }
             }
+            /// every public constructor is used: `From<&str>` / `From<(&str, bool)>` when the bytes
+            /// are UTF-8, `new` / `new_with_param_mapping` otherwise
             pub fn mapper(mapping: &'static [u8], pm: bool) -> ProguardMapper<'static> {
-                ProguardMapper::new_with_param_mapping(ProguardMapping::new(mapping), pm)
+                match (std::str::from_utf8(mapping), pm) {
+                    (Ok(s), false) => ProguardMapper::from(s),
+                    (Ok(s), true) => ProguardMapper::from((s, true)),
+                    (Err(_), false) => ProguardMapper::new(ProguardMapping::new(mapping)),
+                    (Err(_), true) => ProguardMapper::new_with_param_mapping(ProguardMapping::new(mapping), true),
+                }
             }
         }
     };
@@ -299,7 +309,18 @@ pub fn r_item(it: &Result<ProguardRecord, proguard::ParseError>) -> String {
                 lm
             )
         }
-        Err(e) => format!("E({})", hx(e.line())),
+        Err(e) => {
+            // kind(), Display and source() of the error must be consistent with each other
+            use std::error::Error as _;
+            let consistent = match e.kind() {
+                proguard::ParseErrorKind::Utf8Error(u) => e.to_string() == u.to_string() && e.source().is_some(),
+                proguard::ParseErrorKind::ParseError(d) => e.to_string() == d && e.source().is_none(),
+            };
+            if !consistent {
+                return "E-KIND-INCONSISTENT".to_string();
+            }
+            format!("E({})", hx(e.line()))
+        }
     }
 }
 
@@ -329,8 +350,45 @@ impl Write for PolicySink {
         self.accepted.extend_from_slice(&buf[..take]);
         Ok(take)
     }
+    /// genuinely gathering: one call = one policy decision on the total offered length, the
+    /// accepted bytes are taken across the slices in order (position-based, like `write`)
+    fn write_vectored(&mut self, bufs: &[io::IoSlice<'_>]) -> io::Result<usize> {
+        self.calls += 1;
+        if let Some(j) = self.j {
+            if j >= 2 && self.calls % j == 0 {
+                return Err(io::Error::new(io::ErrorKind::Interrupted, "interrupted"));
+            }
+        }
+        let total: usize = bufs.iter().map(|b| b.len()).sum();
+        let mut take = self.k.min(total);
+        if let Some(n) = self.n {
+            if self.accepted.len() >= n {
+                return Err(io::Error::new(io::ErrorKind::Other, "sink failure"));
+            }
+            take = take.min(n - self.accepted.len());
+        }
+        let mut left = take;
+        for b in bufs {
+            let n = left.min(b.len());
+            self.accepted.extend_from_slice(&b[..n]);
+            left -= n;
+            if left == 0 {
+                break;
+            }
+        }
+        Ok(take)
+    }
     fn flush(&mut self) -> io::Result<()> {
         Ok(())
+    }
+}
+
+/// run `f` on a new thread and hand its result back; a panic inside is re-raised here (and so
+/// caught by `step_safe`)
+pub fn on_fresh_thread<T: Send + 'static>(f: impl FnOnce() -> T + Send + 'static) -> T {
+    match std::thread::spawn(f).join() {
+        Ok(v) => v,
+        Err(e) => std::panic::resume_unwind(e),
     }
 }
 
@@ -413,15 +471,19 @@ impl State {
         self.written.unwrap()
     }
     fn three(&mut self, f: &dyn Fn(&dyn Remapper) -> String) -> String {
+        // Every handle is built on its own short-lived thread and queried on this one (the types
+        // are Send + Sync): an answer may not depend on which thread built the object, nor on
+        // what other objects that thread or this one built or answered before.
+        let mapping = self.mapping;
         if self.m0.is_none() {
-            self.m0 = Some(cur::mapper(self.mapping, false));
+            self.m0 = Some(on_fresh_thread(move || cur::mapper(mapping, false)));
         }
         if self.m1.is_none() {
-            self.m1 = Some(cur::mapper(self.mapping, true));
+            self.m1 = Some(on_fresh_thread(move || cur::mapper(mapping, true)));
         }
         if self.wcache.is_none() {
             let w = self.written();
-            self.wcache = Some(cur::parse_cache(w));
+            self.wcache = Some(on_fresh_thread(move || cur::parse_cache(w)));
         }
         let a = f(self.m0.as_ref().unwrap());
         let b = f(self.m1.as_ref().unwrap());
@@ -661,6 +723,46 @@ impl State {
                 hxs(&t.to_string())
             }
             ["FMT", _] => "ok".into(),
+            ["FULL", c, m] => {
+                let (c, m) = (s!(c), s!(m));
+                hxs(&StackFrame::new(&c, &m, 0).full_method())
+            }
+            ["SECT", a, b] => {
+                // `ProguardMapping::section` after every query has been issued on the parent (and
+                // on a clone of it): a sub-mapping answers like a fresh mapping of its bytes
+                let (a, b) = (n!(a), n!(b));
+                if !(a <= b && b <= self.mapping.len()) {
+                    return bad();
+                }
+                let render = |m: &ProguardMapping| -> String {
+                    let s = m.summary();
+                    format!(
+                        "hli={} valid={} comp={} ver={} api={} cc={} mc={} uuid={} rc={}",
+                        m.has_line_info() as u8,
+                        m.is_valid() as u8,
+                        opt_hx(s.compiler()),
+                        opt_hx(s.compiler_version()),
+                        s.min_api().map_or("-".to_string(), |x| x.to_string()),
+                        s.class_count(),
+                        s.method_count(),
+                        hexs(m.uuid().as_bytes()),
+                        m.iter().count()
+                    )
+                };
+                let parent = ProguardMapping::new(self.mapping);
+                let warm = render(&parent);
+                let cl = parent.clone();
+                let s1 = render(&parent.section(a..b));
+                let s2 = render(&cl.section(a..b));
+                let s3 = render(&cl.section(0..self.mapping.len()).section(a..b));
+                let fresh = render(&ProguardMapping::new(&self.mapping[a..b]));
+                let again = render(&parent);
+                if s1 == fresh && s2 == fresh && s3 == fresh && again == warm {
+                    fresh
+                } else {
+                    format!("SECTION-MISMATCH section={} clone-section={} nested={} fresh={} parent-before={} parent-after={}", s1, s2, s3, fresh, warm, again)
+                }
+            }
             ["UUID", h] => {
                 let Some(b) = unhex(h) else { return bad() };
                 // one reused buffer: equal-length inputs sit at the same address (an identifier must
